@@ -58,7 +58,9 @@ type BlockSpec struct {
 	Txs      []TxSpec
 	Hook     func(c *abci.Chain) // deterministic direct keeper set-up on the deliver state (same on every replica)
 	HookName string
-	SleepMs  int // replica r sleeps r*SleepMs before this block (replicas execute at different wall-clock times)
+	SleepMs  int       // replica r sleeps r*SleepMs before this block (replicas execute at different wall-clock times)
+	At       time.Time // absolute header time of this block (zero: previous + Req.Dt)
+	Ns       int64     // nanoseconds added to the header time (header times are not whole seconds on a real chain)
 }
 
 type History struct {
@@ -69,6 +71,10 @@ type History struct {
 	Blocks []BlockSpec
 	// GenesisMod edits the module genesis states before InitChain (time-keyed records to import ...)
 	GenesisMod func(app *simapp.SekaiApp, gs simapp.GenesisState)
+	// Threshold: histories of the wall-clock stream place every stored time threshold at this REAL instant; the in-process
+	// replicas run before it, the late replica after it (a node replaying the chain later / with a shifted clock)
+	Threshold time.Time
+	Start     time.Time // genesis time (zero: hx.BaseTime)
 }
 
 type TxObs struct {
@@ -231,6 +237,9 @@ func newChainOn(h *History, db dbm.DB) *abci.Chain {
 		panic(err)
 	}
 	c := &abci.Chain{App: app, Enc: enc, Accounts: accs, Validators: vals, Time: hx.BaseTime}
+	if !h.Start.IsZero() {
+		c.Time = h.Start
+	}
 	c.InitFrom(bz)
 	return c
 }
@@ -271,6 +280,16 @@ func runReplica(h *History, r int) []BlockObs {
 			time.Sleep(time.Duration(m*b.SleepMs) * time.Millisecond)
 		}
 		np := len(c.Panics)
+		if !b.At.IsZero() {
+			dt := b.Req.Dt
+			if dt <= 0 {
+				dt = 5
+			}
+			c.Time = b.At.Add(-time.Duration(dt) * time.Second)
+		}
+		if b.Ns != 0 {
+			c.Time = c.Time.Add(time.Duration(b.Ns))
+		}
 		c.BeginBlock(b.Req)
 		if b.Hook != nil {
 			if p := hx.Try(func() { b.Hook(c) }); p != "" {
@@ -482,6 +501,11 @@ func emitReplicaCase(h *History, obs [][]BlockObs, seed uint64) (string, jCase) 
 // ---------------------------------------------------------------- child-process replica (another host environment)
 
 const childIndex = 3
+const lateIndex = 4
+
+var realNow time.Time
+var focusMsgs []string
+var earlyDone = map[string][]time.Time{}
 
 type childReplica struct {
 	Shape  string     `json:"shape"`
@@ -502,7 +526,7 @@ func historyShape(h *History) string {
 	var b strings.Builder
 	b.WriteString(h.Name + "|" + h.Class)
 	for _, bl := range h.Blocks {
-		fmt.Fprintf(&b, "|B%d,%d,%v,%v,%s", bl.Req.Dt, bl.Req.Proposer, bl.Req.Evidence, len(bl.Req.Absent), bl.HookName)
+		fmt.Fprintf(&b, "|B%d,%d,%v,%v,%s,%d,%d", bl.Req.Dt, bl.Req.Proposer, bl.Req.Evidence, len(bl.Req.Absent), bl.HookName, bl.Ns, bl.At.UnixNano())
 		for _, t := range bl.Txs {
 			b.WriteString(";" + t.Kind + ":" + t.Note)
 			for _, m := range t.Msgs {
@@ -524,13 +548,14 @@ func abciCodecMarshal(m sdk.Msg) ([]byte, error) {
 
 // startChild re-executes this binary as a replica living on a "different host": local time zone
 // Asia/Tokyo (UTC+9), other HOME / HOSTNAME / locale, a single OS thread for goroutines.
-func startChild(outDir string, n, nrec int, only string) func() (*childResult, string) {
+func startChild(outDir string, n, nrec int, only string, now int64, focus string) func() (*childResult, string) {
 	dir := filepath.Join(outDir, "child")
 	os.MkdirAll(dir, 0o755)
 	args := []string{"-replica-child", "-tz-offset", "32400", "-out", dir, "-n", fmt.Sprint(n), "-recipes", fmt.Sprint(nrec)}
 	if only != "" {
 		args = append(args, "-only", only)
 	}
+	args = append(args, "-now", fmt.Sprint(now), "-focus", focus)
 	cmd := exec.Command(os.Args[0], args...)
 	var env []string
 	for _, e := range os.Environ() {
@@ -609,7 +634,18 @@ func main() {
 	child := flag.Bool("replica-child", false, "internal: run as the child-process replica (other host environment) and write replica.json")
 	tzoff := flag.Int("tz-offset", 0, "internal: seconds east of UTC of the child's local zone")
 	nochild := flag.Bool("no-child", false, "do not start the child-process replica")
+	nowF := flag.Int64("now", 0, "internal: the real instant (unix seconds) the wall-clock stream is generated around")
+	focus := flag.String("focus", "", "comma separated message names (MsgActivate,...) that reach a new environment site: added to the wall-clock stream probes")
 	flag.Parse()
+	if *nowF == 0 {
+		*nowF = time.Now().Unix()
+	}
+	realNow = time.Unix(*nowF, 0).UTC()
+	for _, f := range strings.Split(*focus, ",") {
+		if f != "" {
+			focusMsgs = append(focusMsgs, f)
+		}
+	}
 	if *child {
 		// the HOST environment of this replica differs: local time zone (TZ is set by the parent; the fixed zone below
 		// makes sure of it even without a zoneinfo database), HOME, HOSTNAME, locale, GOMAXPROCS=1
@@ -625,7 +661,8 @@ func main() {
 	var js []jCase
 	emit := func(s string, j jCase) { coq = append(coq, s); js = append(js, j) }
 
-	hs := targetedHistories(rng.Fork(), seed)
+	hs := wallClockHistories(rng.Fork(), seed) // first: their in-process replicas must run before the threshold instant
+	hs = append(hs, targetedHistories(rng.Fork(), seed)...)
 	hs = append(hs, recipeHistories(rng.Fork(), seed, *nrec)...)
 	for i := 0; i < *n; i++ {
 		hs = append(hs, genHistory(rng.Fork(), seed, i))
@@ -647,11 +684,14 @@ func main() {
 	}
 	var childWait func() (*childResult, string)
 	if !*nochild {
-		childWait = startChild(*outDir, *n, *nrec, *only)
+		childWait = startChild(*outDir, *n, *nrec, *only, *nowF, *focus)
 	}
 	all := make([][][]BlockObs, len(run))
 	for i, h := range run {
 		all[i] = runReplicas(h, *k)
+		if !h.Threshold.IsZero() {
+			earlyDone[h.Name] = append(earlyDone[h.Name], time.Now())
+		}
 	}
 	childInfo := map[string]interface{}{"started": childWait != nil}
 	if childWait != nil {
@@ -667,6 +707,25 @@ func main() {
 			}
 			all[i] = append(all[i], c.Blocks)
 		}
+	}
+	// the LATE replica of the wall-clock stream: the same block lists, executed after every stored threshold has passed in real time
+	window := map[string]interface{}{}
+	for i, h := range run {
+		if h.Threshold.IsZero() {
+			continue
+		}
+		early := true
+		for _, t := range earlyDone[h.Name] {
+			if !t.Before(h.Threshold) {
+				early = false
+			}
+		}
+		if d := time.Until(h.Threshold.Add(1200 * time.Millisecond)); d > 0 {
+			time.Sleep(d)
+		}
+		all[i] = append(all[i], runReplica(h, lateIndex))
+		window[h.Name] = map[string]interface{}{"threshold": h.Threshold.Format(time.RFC3339Nano), "in_process_replicas_ran_before_threshold": early,
+			"late_replica_ran_at": time.Now().UTC().Format(time.RFC3339Nano)}
 	}
 	for i, h := range run {
 		obs := all[i]
@@ -740,6 +799,6 @@ func main() {
 	out.WriteFile("cases.txt", strings.Join(coq, "\n")+"\n")
 	out.WriteJSON("meta.json", map[string]string{"case_type": "c01_case", "mismatch_fn": "c01_mismatches", "violation_fn": "c01_violations"})
 	out.WriteJSON("cases.json", js)
-	out.WriteJSON("dist.json", map[string]interface{}{"seed": seed, "cases": len(js), "replicas": *k, "counts": dist, "message_types_per_module": mcov, "off_consensus_activity_replica_1": offStats, "query_methods": len(allQueries), "child_process_replica": childInfo, "harness_seconds": time.Since(t0).Seconds()})
+	out.WriteJSON("dist.json", map[string]interface{}{"seed": seed, "cases": len(js), "replicas": *k, "counts": dist, "message_types_per_module": mcov, "off_consensus_activity_replica_1": offStats, "query_methods": len(allQueries), "child_process_replica": childInfo, "wall_clock_stream": window, "focus": focusMsgs, "harness_seconds": time.Since(t0).Seconds()})
 	fmt.Fprintf(os.Stderr, "c01: %d cases in %.1fs\n", len(js), time.Since(t0).Seconds())
 }
